@@ -341,7 +341,14 @@ fn run_sequence<S: Probe>(rep: &Report, start: usize, ops: &[&Op], deep: bool) -
             }
             Ok(Ok(())) => {}
         }
-        if let Some((what, detail)) = compare(&s, &m, deep) {
+        let cmp = match panicx::catch(|| compare(&s, &m, deep)) {
+            Ok(c) => c,
+            Err(p) => {
+                rep.violation(&format!("{}|export_{}", S::NAME, p.class()), &format!("{}: reading the sink back after op {i} ({op:?}) panicked: {}", S::NAME, p.describe()), seq_json(S::NAME, start, &ops[..=i]), (start + i * 100) as u64);
+                return false;
+            }
+        };
+        if let Some((what, detail)) = cmp {
             // attribute the disagreement to the last two ops (a deferred carry shows up one op late)
             let culprit = if i > 0 && what != "length" { format!("{}+{}", opclass(ops[i - 1]), opclass(op)) } else { opclass(op) };
             rep.violation(&format!("{}|{what}|{culprit}", S::NAME), &format!("{}: after op {i} ({op:?}): {detail}", S::NAME), seq_json(S::NAME, start, &ops[..=i]), (start + i * 100) as u64);
@@ -382,7 +389,7 @@ fn sweep<S: Probe>(rep: &Arc<Report>, alpha: &[Op], reduced: &[Op], depth3: bool
                 let r = panicx::catch(|| apply(&mut s, b).and_then(|()| apply(&mut s, &probe)));
                 model_apply(&mut m, b);
                 model_apply(&mut m, &probe);
-                let okay = matches!(r, Ok(Ok(()))) && compare(&s, &m, false).is_none();
+                let okay = matches!(r, Ok(Ok(()))) && matches!(panicx::catch(|| compare(&s, &m, false)), Ok(None));
                 if !okay {
                     bad += 1;
                     // re-run step by step to classify and record
